@@ -14,7 +14,10 @@
                completion, then the worker is released *)
 EXTENDS Integers, Sequences, FiniteSets, TLC, Json
 
-WorkerGates == {"ds.loop.top#2", "ds.loop.top#3", "ds.retry.begin", "ds.retry.pool", "ds.retry.chosen", "ds.wait", "ds.wait#2", "ds.woken", "ds.woken#2", "ds.upreset.retry"}
+WorkerGates == {"ds.loop.top#2", "ds.loop.top#3", "ds.retry.begin", "ds.retry.pool", "ds.retry.chosen", "ds.wait", "ds.wait#2", "ds.woken", "ds.woken#2", "ds.upreset.retry",
+                "ds.pe#7", "ds.pe#8", "ds.pe#10"}
+                \* ds.pe#n = the n-th processError of the request: #6 follows the first send, #7/#8 follow the re-send of a retry after
+                \* one/two synchronous connect failures, #10 follows the re-send of a retry decided on a 5xx response
                 \* "point#n" = the n-th arrival at the point (the task loop passes its top once per phase re-entry)
 TimerGates  == {"ds.gtimer.fire", "ds.gtimer.cas", "ds.ptimer.fire", "ds.ptimer.cas"}
 UpGates     == {"us.recv.guard", "us.recv.cas", "us.reset"}
